@@ -122,7 +122,12 @@ def recheck(names, tier='quick'):
         if not os.path.exists(mp):
             continue
         meta = json.load(open(mp))
-        d = scratch_with_patch(os.path.join(root, n, 'patch.diff'))
+        try:
+            d = scratch_with_patch(os.path.join(root, n, 'patch.diff'))
+        except RuntimeError as e:
+            print('%-28s property=%s PATCH DOES NOT APPLY to /repo HEAD (%s)' % (n, meta['property'], str(e).strip().splitlines()[-1][:120]))
+            rc = 1
+            continue
         try:
             props = sorted(set([meta['property']] + list(meta.get('checks', {}).keys())))
             checks = run_checks(props, d, tier, seeds=(0,))
